@@ -29,6 +29,9 @@ func (P) Rule() string {
 		"foreign block holding a CONFLICTING spend or a same-nonce competitor) with goodTxs and utxoTxs each empty or not at that Update (every recheck path), then submits a second spend of the same output / the same nonce and reaps and commits; " +
 		"a middle stream (60 quick / 200 thorough) lets a forced block invalidate a MIDDLE transaction of a sender's pending run — a never-submitted competitor with the first nonce drains the balance so that the second one is " +
 		"underfunded while the ones behind it become nonce-too-high (recheckTxs must move them to the future queue AND out of goodTxs), or the block carries the first one plus a competitor of the second — then refills the gap and reaps / commits; " +
+		"a cache-window stream (50 quick / 150 thorough, with a COLD REPLICA stack that never sees a submission and must give the same verdict on every block) submits confidential transactions ALTERED after construction " +
+		"(outpk, pseudo-out, range proof, ring signature) and oversize ones — admission refuses them — and forces foreign blocks holding them, immediately, after other ops, and INSIDE the window of a paused AddTx " +
+		"(op window: cache.Put done, basic check not finished — the interleaving in which only CheckAndGet protects the validator path), also for valid transactions and for spends of spent outputs; " +
 		"a concurrent stream submits prebuilt transactions from 8 goroutines while the consensus goroutine reaps and commits, invariants checked on every reap and after quiescence; " +
 		"non-trivial = at least one commit with a transaction AND at least one of: queued transaction promoted, rejection (dup/stale/funds/double-spend/full/oversized), forced block; distinct = distinct op sequence"
 }
@@ -36,6 +39,7 @@ func (P) Rule() string {
 func (P) NewExec() hx.Executor { return &exec{} }
 
 type minfo struct {
+	tampered bool
 	kind   string
 	from   int
 	nonce  int64
@@ -179,11 +183,27 @@ func (P) Monitor(c *hx.CaseRun) []hx.Failure {
 				if toks[0] != "uu" && toks[0] != "ua" {
 					from = int(argI(toks, "from", 0))
 				}
-				info[id] = minfo{kind: toks[0], from: from, nonce: argI(toks, "nonce", 0), img: int(argI(a, "img", -1)), amount: argI(toks, "amount", 1)}
+				_, tampered := hx.Arg(toks, "tamper")
+				info[id] = minfo{tampered: tampered, kind: toks[0], from: from, nonce: argI(toks, "nonce", 0), img: int(argI(a, "img", -1)), amount: argI(toks, "amount", 1)}
 				optoks[id] = toks
 			}
 		}
+		if strings.Contains(ans, " acceptance=") {
+			fail("block_acceptance_cache_independent", "block-acceptance-depends-on-mempool", "app/app.go:verifyTxsOnProcess",
+				"the node that saw the submissions and the cold replica disagree on a block: "+op+" -> "+ans, false)
+		}
 		switch toks[0] {
+		case "window":
+			during, _ := hx.Arg(a, "during")
+			cold, _ := hx.Arg(a, "cold")
+			if cold != "-" && cold != "" && during != cold {
+				fail("block_acceptance_cache_independent", "block-acceptance-depends-on-mempool", "mempool/mempool.go:GetTxFromCache",
+					"while AddTx is between cache.Put and the end of the basic check, CheckBlock of a block holding that transaction says "+during+" on this node and "+cold+" on a node with a cold cache: "+op, false)
+			}
+			if m, ok := info[int(argI(toks, "id", -1))]; ok && m.tampered && during == "true" {
+				fail("invalid_confidential_tx_refused", "invalid-confidential-tx-accepted", "app/app.go:verifyTxsOnProcess",
+					"a block holding a confidential transaction altered after construction passed CheckBlock: "+op+" -> "+ans, false)
+			}
 		case "reap":
 			v, _ := hx.Arg(a, "txs")
 			ids := parseIDs(v)
@@ -201,6 +221,10 @@ func (P) Monitor(c *hx.CaseRun) []hx.Failure {
 			if strings.HasPrefix(ans, "h=") {
 				v, _ := hx.Arg(a, "txs")
 				for _, id := range parseIDs(v) {
+					if m, ok := info[id]; ok && m.tampered {
+						fail("invalid_confidential_tx_refused", "invalid-confidential-tx-accepted", "app/app.go:verifyTxsOnProcess",
+							fmt.Sprintf("tx %d, a confidential transaction altered after construction, was committed: %s", id, op), false)
+					}
 					if committed[id] {
 						fail("committed_once", "tx-committed-twice", "app/app.go:CommitBlock", fmt.Sprintf("tx %d committed twice", id), false)
 					}
@@ -497,6 +521,13 @@ func (P) Generate(g *hx.Gen) {
 		ops, label := middleCase(g)
 		g.Case("middle "+label, ops, true)
 	}
+	// cache-window stream: rejected (tampered / oversize) transactions and the validator path of foreign blocks holding them,
+	// inside and outside the window of a non-atomic AddTx, compared with a cold replica
+	nw := g.Pick(50, 150)
+	for k := 0; k < nw; k++ {
+		ops, label := cacheWindowCase(g)
+		g.Case("cachewin "+label, ops, true)
+	}
 	// concurrent stream: 8 submitting goroutines against the reaping/committing consensus goroutine
 	nc := g.Pick(25, 50)
 	for k := 0; k < nc; k++ {
@@ -759,4 +790,107 @@ func middleCase(g *hx.Gen) ([]string, string) {
 	add("commit max=1000")
 	add("reap max=1000")
 	return ops, label
+}
+
+// cacheWindowCase: see Rule().  Ids are exact (every uu / ua / xfer op of this stream builds a fresh transaction).
+func cacheWindowCase(g *hx.Gen) ([]string, string) {
+	r := g.Rng
+	ops := []string{hx.CaseOp("cachewin"), fmt.Sprintf("pool accts=3 wallets=2 bal=1000000000000 tbal=1000 replica=1 trie=%d seed=%d", r.Intn(2), 1+r.Intn(1000))}
+	add := func(f string, a ...interface{}) { ops = append(ops, fmt.Sprintf(f, a...)) }
+	id := 0
+	next := []int{0, 0, 0}
+	amt := 1000
+	m := 2 + r.Intn(3)
+	for i := 0; i < m; i++ {
+		from := r.Intn(3)
+		add("ain from=%d w=0 amount=%d nonce=%d", from, 20000000000+int64(r.Intn(1000000))*10000, next[from])
+		next[from]++
+		id++
+	}
+	add("commit max=1000")
+	add("commit max=1000")
+	tampers := []string{"outpk", "pseudo", "proof", "sig"}
+	spend := func(out int, tamper string, sub bool) int {
+		amt += 1 + r.Intn(40)
+		sfx := ""
+		if tamper != "" {
+			sfx += " tamper=" + tamper
+		}
+		if !sub {
+			sfx += " sub=0"
+		}
+		if r.Intn(2) == 0 {
+			add("uu w=0 in=%d to=%d amount=%d%s", out, r.Intn(2), amt, sfx)
+		} else {
+			add("ua w=0 in=%d to=%d amount=%d%s", out, r.Intn(3), amt, sfx)
+		}
+		id++
+		return id - 1
+	}
+	var labels []string
+	var rejected []int
+	for k, rounds := 0, 2+r.Intn(3); k < rounds; k++ {
+		out := r.Intn(m)
+		t := tampers[r.Intn(len(tampers))]
+		switch v := r.Intn(6); v {
+		case 0: // submitted, refused, forced at once
+			labels = append(labels, "submit-force")
+			g.Count("cachewin:submit-force")
+			x := spend(out, t, true)
+			add("force ids=%d", x)
+			rejected = append(rejected, x)
+		case 1: // inside the window of its own AddTx, then again outside
+			labels = append(labels, "window-tampered")
+			g.Count("cachewin:window-tampered")
+			x := spend(out, t, false)
+			add("window id=%d", x)
+			add("force ids=%d", x)
+			rejected = append(rejected, x)
+		case 2: // a valid transaction inside its window: accepted on both nodes, then pooled and committed
+			labels = append(labels, "window-valid")
+			g.Count("cachewin:window-valid")
+			x := spend(out, "", false)
+			add("window id=%d", x)
+			add("reap max=1000")
+			if r.Intn(2) == 0 {
+				add("window id=%d", x) // again: a duplicate stops at cache.Put, the entry is checked
+			}
+			add("commit max=1000")
+		case 3: // oversize plain transfer: refused at admission, and a block holding it does not even execute
+			labels = append(labels, "oversize")
+			g.Count("cachewin:oversize")
+			from := r.Intn(3)
+			amt += 1 + r.Intn(40)
+			add("xfer from=%d to=%d amount=%d nonce=%d pad=%d", from, r.Intn(3), amt, next[from], 33000+r.Intn(2000))
+			id++
+			add("force ids=%d", id-1)
+		case 4: // a tampered and a valid spend of one output: the valid one is pooled, the window is the tampered one's
+			labels = append(labels, "window-beside-valid")
+			g.Count("cachewin:window-beside-valid")
+			spend(out, "", true)
+			x := spend(out, t, false)
+			add("window id=%d", x)
+			add("force ids=%d", x)
+			add("commit max=1000")
+			rejected = append(rejected, x)
+		default: // an earlier refused one, forced again after other ops, alone and beside a valid transfer
+			if len(rejected) > 0 {
+				labels = append(labels, "force-later")
+				g.Count("cachewin:force-later")
+				from := r.Intn(3)
+				amt += 1 + r.Intn(40)
+				add("xfer from=%d to=%d amount=%d nonce=%d", from, r.Intn(3), amt, next[from])
+				next[from]++
+				id++
+				x := rejected[r.Intn(len(rejected))]
+				add("force ids=%d", x)
+				add("window id=%d", x)
+				add("force ids=%d,%d", id-1, x)
+				add("commit max=1000")
+			}
+		}
+	}
+	add("reap max=1000")
+	add("commit max=1000")
+	return ops, strings.Join(labels, "+")
 }
